@@ -32,6 +32,31 @@ type PlatformLevel struct {
 	Tdx    [16]byte
 	Status string
 	Date   string // tcbDate; "" = a fixed default
+	// SgxShape / TdxShape deform the component list of the level: "" (16 entries), "absent" (member missing),
+	// "empty" ([]), "null", "short" (15 entries), "long" (17 entries), "one" (1 entry)
+	SgxShape, TdxShape string
+}
+
+// Malformed tells whether a component list of the level is not a list of 16 entries.
+func (l PlatformLevel) Malformed() bool { return l.SgxShape != "" || l.TdxShape != "" }
+
+func compsShaped(key string, v [16]byte, shape string) string {
+	full := comps(v)
+	switch shape {
+	case "absent":
+		return ""
+	case "empty":
+		return `"` + key + `":[],`
+	case "null":
+		return `"` + key + `":null,`
+	case "short":
+		return `"` + key + `":` + full[:strings.LastIndex(full, ",")] + `],`
+	case "long":
+		return `"` + key + `":` + full[:len(full)-1] + `,{"svn":0}],`
+	case "one":
+		return `"` + key + `":` + full[:strings.Index(full, ",")] + `],`
+	}
+	return `"` + key + `":` + full + `,`
 }
 
 // ModuleLevel is one entry of a TDX module identity's tcbLevels.
@@ -114,8 +139,9 @@ func (d *TcbInfoDoc) Render() []byte {
 		if i > 0 {
 			sb.WriteString(",")
 		}
-		fmt.Fprintf(&sb, `{"tcb":{"sgxtcbcomponents":%s,"pcesvn":%d,"tdxtcbcomponents":%s},"tcbDate":%q,"tcbStatus":%q}`,
-			comps(l.Sgx), l.PceSvn, comps(l.Tdx), dateOr(l.Date), l.Status)
+		tdx := compsShaped("tdxtcbcomponents", l.Tdx, l.TdxShape)
+		fmt.Fprintf(&sb, `{"tcb":{%s"pcesvn":%d%s},"tcbDate":%q,"tcbStatus":%q}`,
+			compsShaped("sgxtcbcomponents", l.Sgx, l.SgxShape), l.PceSvn, strings.TrimSuffix(","+tdx, ","), dateOr(l.Date), l.Status)
 	}
 	sb.WriteString("]}")
 	return []byte(sb.String())
